@@ -6,7 +6,7 @@ classify then treat cases whose op is one of the object ops here and everything 
 import importlib, json, os, sys
 
 _REPO = os.environ.get("VERIF_REPO", "/repo")
-OBJECT_OPS = ("tm", "sstack", "heapq")
+OBJECT_OPS = ("tm", "sstack", "heapq", "equeue", "dialogview")
 
 
 def _repo():
@@ -209,7 +209,91 @@ def monitor_heapq(case, obs):
     return None
 
 
+# ------------------------------------------------------------------------------------------------ EventQueue with its source API; the library's dialogs as views
+_VIEWS = []
+def _views():
+    """generators and real-side runners shared with the stand-alone validation tool tools/views_diff.py"""
+    if not _VIEWS:
+        import importlib.util
+        _repo()
+        spec = importlib.util.spec_from_file_location("views_diff", os.path.join(os.path.dirname(os.path.dirname(os.path.dirname(os.path.abspath(__file__)))), "tools", "views_diff.py"))
+        m = importlib.util.module_from_spec(spec); spec.loader.exec_module(m); _VIEWS.append(m)
+    return _VIEWS[0]
+
+
+def gen_equeue(rnd, n): return [_views().gen_queue(rnd) for _ in range(n)]
+def run_equeue(case): return _views().run_real_queue(case)
+
+
+def monitor_equeue(case, obs):
+    """the queue object: sources are a set (C03's routing test), a conditional put enqueues exactly when the source is registered, most urgent first / FIFO (C01)"""
+    pending = []; n = 0; srcs = set()
+    for o, r in zip(case["ops"], obs["out"]):
+        r = r["r"]
+        if o[0] == "put": pending.append((o[1], n)); n += 1
+        elif o[0] == "put_if":
+            if r is not (o[2] in srcs): return "enqueue_if_source_belongs answered %r; the source is %sregistered" % (r, "" if o[2] in srcs else "not ")
+            if r: pending.append((o[1], n))
+            n += 1
+        elif o[0] == "add_source": srcs.add(o[1])
+        elif o[0] == "remove_source":
+            if (r == "EventQueueError") is (o[1] in srcs): return "remove_source of a %s source answered %r" % ("registered" if o[1] in srcs else "missing", r)
+            srcs.discard(o[1])
+        elif o[0] == "contains":
+            if r is not (o[1] in srcs): return "contains_source answered %r; sources %r" % (r, sorted(srcs))
+        else:
+            if r == "empty":
+                if pending: return "the queue says it is empty with %d signals pending" % len(pending)
+                continue
+            best = min(pending)
+            if o[0] == "get" or best[0] == o[1]:
+                if r != best[1]: return "%s returned signal %r; the head is %r" % (o[0], r, best)
+                pending.remove(best)
+            elif r is not None: return "get_top_event_if_priority(%d) returned signal %r of another priority" % (o[1], r)
+    if obs["sources"] != sorted(srcs): return "sources at the end %r, a set gives %r" % (obs["sources"], sorted(srcs))
+    return None
+
+
+def gen_dialogview(rnd, n): return [dict(_views().gen_dialog(rnd), op="dialogview") for _ in range(n)]
+
+
+_TMP = []
+def run_dialogview(case):
+    import tempfile
+    _repo()
+    from simpleline import App
+    App.initialize()
+    if not _TMP: _TMP.append(tempfile.mkdtemp(prefix="verif-help-", dir=os.path.join(os.path.dirname(os.path.dirname(os.path.dirname(os.path.abspath(__file__)))), "out")))
+    out, mcase = _views().run_real_dialog(case, _TMP[0])
+    out["_model_case"] = mcase
+    return out
+
+
+PROMPTS = {"error": "Press ENTER to exit: ", "password": None, "yesno": "Please respond 'yes' or 'no': ", "help": "Press ENTER to return: "}
+def monitor_dialogview(case, obs):
+    """C12 / C17 on the library's own dialogs: title, a blank line, the message; every line within the width; the documented prompt"""
+    w = case["w"]
+    for l in obs.get("lines") or []:
+        if len(l.rstrip(" ")) > w: return "%s dialog, width %d: line %r is longer" % (case["kind"], w, l)
+    if case["kind"] in PROMPTS and obs["prompt"] != PROMPTS[case["kind"]]: return "%s dialog: prompt %r, documented %r" % (case["kind"], obs["prompt"], PROMPTS[case["kind"]])
+    if case["kind"] in ("getinput", "getpassinput"):
+        exp = (case["msg"] + ": ") if case["msg"] else ""
+        if obs["prompt"] != exp: return "input screen: prompt %r for the message %r" % (obs["prompt"], case["msg"])
+    if case["kind"] == "password" and obs.get("passprompt") != "Passphrase: ": return "password dialog asks with %r" % (obs.get("passprompt"),)
+    return None
+
+
 def compare_obj(case, impl, model):
+    if case["op"] == "dialogview":
+        a = {k: v for k, v in impl.items() if not k.startswith("_") and k != "hide"}
+        if impl.get("hide") is False: return "GetPasswordInputScreen does not hide the input"
+        if a != model: return "implementation %s / model %s" % (json.dumps(a, ensure_ascii=False)[:500], json.dumps(model, ensure_ascii=False)[:500])
+        return None
+    if case["op"] == "equeue":
+        for k, (a, b) in enumerate(zip(impl["out"], model["out"])):
+            if a != b: return "call #%d %r: implementation %r / model %r" % (k, case["ops"][k], a, b)
+        if impl["sources"] != model["sources"]: return "sources: implementation %r / model %r" % (impl["sources"], model["sources"])
+        return None
     if case["op"] == "heapq":
         if impl["out"] is None: return "the implementation's queue cannot be started at a given arrival number: %s" % impl.get("unsupported")
         for k, (a, b) in enumerate(zip(impl["out"], model["out"])):
@@ -224,11 +308,12 @@ def compare_obj(case, impl, model):
     return None
 
 
-RUN = {"tm": run_tm, "sstack": run_sstack, "heapq": run_heapq}
-MON = {"tm": monitor_tm, "sstack": monitor_sstack, "heapq": monitor_heapq}
+RUN = {"tm": run_tm, "sstack": run_sstack, "heapq": run_heapq, "equeue": run_equeue, "dialogview": run_dialogview}
+MON = {"tm": monitor_tm, "sstack": monitor_sstack, "heapq": monitor_heapq, "equeue": monitor_equeue, "dialogview": monitor_dialogview}
 
 
 def shrink_obj(case):
+    if "ops" not in case: return
     ops = case["ops"]
     if len(ops) > 3:
         yield dict(case, ops=ops[: len(ops) // 2]); yield dict(case, ops=ops[len(ops) // 2:])
@@ -248,9 +333,15 @@ def install(g, ops):
         g[name] = w
     wrap("run_impl", lambda c: json.loads(json.dumps(RUN[c["op"]](c))))
     wrap("model_case", lambda c: {k: v for k, v in c.items() if k not in ("cc", "prio_property")})
+    old_mi = g.get("model_input")
+    def model_input(case, obs):
+        # (the dialogs' model case is made by the real-side runner: the help text is what read() returned, the character classes cover the model's own literals)
+        if is_obj(case) and case.get("op") == "dialogview" and isinstance(obs, dict) and "_model_case" in obs: return obs["_model_case"]
+        return old_mi(case, obs) if old_mi else g["model_case"](case)
+    g["model_input"] = model_input
     wrap("compare", compare_obj)
     wrap("monitor", lambda c, o: MON[c["op"]](c, o))
-    wrap("nontrivial", lambda c, o: len(c["ops"]) >= 3)
+    wrap("nontrivial", lambda c, o: len(c.get("ops") or [0, 0, 0]) >= 3)
     wrap("outcome", lambda c, o: "object/" + c["op"])
     if "truncate" in g: wrap("truncate", lambda c, o, m: o)
     if "classify" in g: wrap("classify", lambda c, o, v, m=None: None)
